@@ -59,7 +59,7 @@ def plan(tier, seed):
 
 def mandatory_bins(tier):
     b = ["offset_%d" % o for o in OFFSETS] + ["offset_random", "tag_order_not_sorted", "encrypted_component", "zero_components", "eight_tags",
-         "text_stream", "text_path", "bec2", "appnote_scripts", "block_cust_opened", "block_update_opened", "block_ecc_opened", "customer_key_in_slot", "histories_under_layout_hooks", "second_export_after_in_place_mutation", "more_than_255_components", "directory_larger_than_64k", "bec2_without_auth_blocks", "encrypted_payload_over_8k", "same_component_object_listed_twice", "exports_by_concurrent_threads", "one_object_exported_by_concurrent_threads", "description_is_a_dict_subclass", "unmarked_component_carrying_the_enc_02_tag"]
+         "text_stream", "text_path", "bec2", "appnote_scripts", "block_cust_opened", "block_update_opened", "block_ecc_opened", "customer_key_in_slot", "histories_under_layout_hooks", "second_export_after_in_place_mutation", "more_than_255_components", "directory_larger_than_64k", "bec2_without_auth_blocks", "encrypted_payload_over_8k", "same_component_object_listed_twice", "exports_by_concurrent_threads", "one_object_exported_by_concurrent_threads", "description_is_a_dict_subclass", "unmarked_component_carrying_the_enc_02_tag", "encrypted_component_declared_shorter_than_blob"]
     b += ["blocks_" + "+".join(l) for l in GB.all_block_lists()]
     return b
 
@@ -77,7 +77,14 @@ def gen_case_c03(rng):
             blob = rng.randbytes(rng.choice((1024, 1025, 1040, 2048, 2049, 4100)))
         desc = [(0xC3, b"\x03"), (0xC2, b"\x02"), (0xC1, b"\x03"), (0xC5, b"\x01")] if rng.random() < 0.7 else [(t, v) for t, v in G.gen_desc(rng, maxbytes=207) if t != 0xC2] + [(0xC2, b"\x02")]
         if len({t for t, _ in desc}) == len(desc):
-            case.comps.insert(rng.randrange(len(case.comps) + 1), MComp(desc, blob, len(blob), True))
+            declared = len(blob)
+            if rng.random() < 0.3 and len(blob) > 1:
+                # the declared length of an encrypted component may be smaller than its blob (content followed by other bytes): the
+                # whole blob is padded and encrypted, the declared length is only a directory field
+                declared = rng.choice((1, len(blob) - 1, max(1, len(blob) - 16), max(1, len(blob) - 17), rng.randrange(1, len(blob))))
+                if blob[declared:] == bytes(len(blob) - declared):
+                    blob = blob[:-1] + b"\x5a"
+            case.comps.insert(rng.randrange(len(case.comps) + 1), MComp(desc, blob, declared, True))
     if rng.random() < 0.1:
         case.comps.append(MComp([(t, bytes([t])) for t in (9, 3, 200, 1, 0xC3, 7, 0, 255)], b"eight tags", None, False))
     if rng.random() < 0.12:
@@ -99,6 +106,8 @@ def note_bins(ctx, case):
             ctx.bin("tag_order_not_sorted")
         if c.encrypted:
             ctx.bin("encrypted_component")
+            if c.declared < len(c.blob):
+                ctx.bin("encrypted_component_declared_shorter_than_blob")
         if len(ts) >= 8:
             ctx.bin("eight_tags")
         if not c.encrypted and any(t == 0xC2 and bytes(v) == b"\x02" for t, v in c.desc):
